@@ -419,16 +419,17 @@ PROPS["C03"] = {
 }
 
 PROPS["C14"] = {
-    "files": ["statesync/syncer.go", "statesync/snapshots.go", "statesync/chunks.go"],
+    "files": ["statesync/syncer.go", "statesync/snapshots.go", "statesync/chunks.go", "statesync/stateprovider.go"],
     "groups": [
         {"dir": "statesync",
-         "quick": ["VP_C14_Sync_b0", "VP_C14_Sync_b1", "VP_C14_Sync_b2", "VP_C14_Sync_b3"],
+         "quick": ["VP_C14_Sync_b0", "VP_C14_Sync_b1", "VP_C14_Sync_b2", "VP_C14_Sync_b3", "VP_C14_StateProvider"],
          "thorough": ["VP_C14_Sync_b4"]},
     ],
     "bounds": {
+        "state provider (H2)": "the real lightClientStateProvider (AppHash, State) on a real light.Client over a genuinely signed 7-block chain whose validator set changes at an arbitrary height 2..7, snapshot height 2..4; consensus parameters served by a stubbed RPC client and checked by the real light/rpc client: the state's three validator sets, app hash and results hash are those of the verified headers",
         "restore (H1)": "the real syncer.SyncAny with its fetcher goroutine, snapshot pool and chunk queue (chunk files on the modelled file system, timers on the virtual clock) against a recording application and three peers; advertised sets: {S1 from two peers + S2 from one}, {a snapshot for a height the light client cannot verify + S1}, {a higher snapshot + S1 + S2}; up to 3 (thorough 4) adversarial actions per run drawn from: OfferSnapshot verdict reject / reject-format / reject-sender / abort; ApplySnapshotChunk verdict retry / retry-snapshot / reject-snapshot / abort / refetch+retry / reject-sender+refetch+retry; the restored application reporting a wrong hash, height or version; a peer staying silent, an outsider's chunk arriving first, a wrong-index chunk, a duplicate with other bytes; the peer asked is an arbitrary one of the snapshot's peers",
     },
     "stubs": ["StateProvider (the light client, C09's subject) replaced by a table of verified heights", "p2p peers and ABCI connections are harness objects", "math/rand.Intn = arbitrary choice"],
-    "outside": ["the reactor's message validation and snapshot serving side", "the light-client state provider itself (C09)", "more than 2 chunks per snapshot, more than 4 adversarial actions", "several fetchers racing (chunk_fetchers = 1)"],
+    "outside": ["the reactor's message validation and snapshot serving side", "more than 2 chunks per snapshot, more than 4 adversarial actions", "several fetchers racing (chunk_fetchers = 1)"],
     "timeout_quick": 300, "timeout_thorough": 1800,
 }
